@@ -317,7 +317,13 @@ T fabs (const Quaternion<T,B>& j)
 template<typename T, QBasis B>
 const Quaternion<T,B> sqrt (const Quaternion<T,B>& h)
 {
-  T root_det = sqrt( det(h) );
+  // the determinant of a singular (|vector| = scalar) quaternion is zero and
+  // may round slightly below it
+  T determinant = det(h);
+  if (determinant < 0)
+    determinant = 0;
+
+  T root_det = sqrt( determinant );
   T scalar = sqrt( 0.5 * (h.s0 + root_det) );
 
   if (scalar == 0.0)
